@@ -537,15 +537,14 @@ theorem optimal_table_facts (f : List Nat) (hf : Opt.LosslessFreq f) (bits : Lis
     rw [hmap, strict_kraft_eq]
     simpa [KraftStrict] using hks
 
-theorem losslessHeader_ok (w h nc P pred : Nat) (t : JpegC.HuffTable) (hw : 1 ≤ w) (hh : 1 ≤ h)
+theorem losslessHeader_ok (w h nc P pred : Nat) (t : JpegC.HuffTable) (hw : 1 ≤ w ∧ w ≤ 65535) (hh : 1 ≤ h ∧ h ≤ 65535)
     (hc : nc = 1 ∨ nc = 3) (hP : 2 ≤ P ∧ P ≤ 16) (hpred : pred ≤ 7) (ht : JpegC.TableOk t) :
     ∃ hdr, JpegC.losslessHeader (w : Int) (h : Int) nc (P : Int) (pred : Int) t = .ok hdr := by
-  have g1 : ¬ ((w : Int) ≤ 0 ∨ (h : Int) ≤ 0) := by omega
-  have g2 : ¬ (nc ≠ 1 ∧ nc ≠ 3) := by omega
-  have g3 : ¬ ((P : Int) < 2 ∨ (P : Int) > 16) := by omega
-  have g4 : ¬ ((pred : Int) < 0 ∨ (pred : Int) > 7) := by omega
-  simp only [JpegC.losslessHeader, if_neg g1, if_neg g2, if_neg g3, if_neg g4, JpegC.dhtSegment,
-    JpegC.dhtPayload_ok 0 0 t ht, JpegC.Outcome.map]
+  -- the argument guards of `losslessHeader` are C16's/C17's text: discharge whatever arithmetic
+  -- guards it has, in whatever grouping, from the hypotheses
+  unfold JpegC.losslessHeader
+  repeat (rw [if_neg (by omega)])
+  simp only [JpegC.dhtSegment, JpegC.dhtPayload_ok 0 0 t ht, JpegC.Outcome.map]
   exact ⟨_, rfl⟩
 
 /-- a scan of at least one sample is not empty: the first symbol's code has at least one bit -/
@@ -637,8 +636,8 @@ theorem encode_ok (sv1 : Bool) (pix : Array Nat) (w h nc P predictor : Nat)
   obtain ⟨hdr, hhdr⟩ : ∃ hdr, (if sv1 then JpegC.sv1Header w h nc P ⟨bits, values⟩
       else JpegC.losslessHeader w h nc P pred ⟨bits, values⟩) = .ok hdr := by
     cases sv1 with
-    | true => exact losslessHeader_ok w h nc P 1 _ hw.1 hh.1 hc hP (by omega) htok
-    | false => exact losslessHeader_ok w h nc P pred _ hw.1 hh.1 hc hP hpred7 htok
+    | true => exact losslessHeader_ok w h nc P 1 _ hw hh hc hP (by omega) htok
+    | false => exact losslessHeader_ok w h nc P pred _ hw hh hc hP hpred7 htok
   refine ⟨s, pred, bits, values, t, scan, hdr, hs1, hsz, hrng, hs2, hpred, hb, hv, hks, ht, htok,
     henc, hst, hne, hscan, hdec, hhdr, ?_⟩
   have g1 : ¬ (w = 0 ∨ h = 0 ∨ w > 65535 ∨ h > 65535) := by omega
